@@ -427,7 +427,10 @@ def run(ctx):
             agree += 1
         else:
             by_class.setdefault(failure_class(c, exp, v), []).append((c, exp, v, res.get("missing")))
+    new_classes = [k for k in sorted(by_class) if ctx.is_known(k) is None]
     for cls, items in sorted(by_class.items()):
+        if ctx.is_known(cls) is None and new_classes.index(cls) >= 15:
+            continue          # more classes of the same run: listed in the evidence (spec_disagreement_classes)
         c, exp, v, miss = items[0]
         ctx.report(cls, "counterexample",
                    "real check() disagrees with the unitary-context rule" + ("" if info["ok"] else f" (proofs broken at {info['failed']})"),
